@@ -181,25 +181,36 @@
                                          start-face phase: the decoder's final stack has one entry per start-face bit, and for an
                                          interior bit the entry's face is glued to the recorded start face.  (Decidable:
                                          [start_ok_b]; proved for one bit - C01_ebsim_roundtrip_events_1 - and without events.)
-    NOT proved - the general theorem C01_ebsim_roundtrip without that premise.  Missing is exactly:
-        eb_encode_tr c2v opp nv niso ndeg = EOk (o, tr)  ->  2 <= length (o_bits o)  ->  o_events o <> []  ->
-        start_ok_g c2v opp nf (o_pcc o) (rev (o_syms o)) (topsE (rev (o_syms o)) (EVseg_of o) (length (o_syms o))) (o_bits o)
-    i.e. the RUNS of the trace (boundaries of [MSTEP], whose start corners are the [rest] entries of
-    C01_ebsim_stack_with_events_runs) have to be matched with the blocks of [RUNS] (C01_ebsim_encoder_history: one block per
-    bit, interior bit => Opposite(init corner) = the block's oldest corner, [IFc']).  Without events the match came from the
-    BALANCE of every block ([RUNS2]); with events a joint induction over the fold of EncodeConnectivity is needed: a ledger in
-    the invariant [GOODM] of EbTraceStepM_proofs recording, per start-face bit, the position of the first configuration of its
-    call and Opposite(init corner) = its corner, and that EVERY bit's call emits a symbol (the start face is not visited:
-    [CLOSED] + [FANC] of EbEncoder_proofs.ECinv at the prefix state, as in EbSimEnc_proofs.ec_corner_hist); then [TS] with
-    `rest = the corners at the ledger positions` and [start_ok_g_of_idx].
-    (cntv <= vertices + splits and |events| <= faces are derived for any number of runs: C01_ebsim_verts_fit_script,
-    C01_ebsim_events_count.) *)
+      C01_ebsim_trace_ledger / C01_ebsim_start_ok   (Proofs/EbTraceLedger_proofs.v, EbSimEvEncM_proofs.v)
+                                         proved: the LEDGER of the runs, by a joint induction over the fold of EncodeConnectivity
+                                         (the trace fold together with EbEncoder_proofs.ECinv of the erased state at every
+                                         prefix): every start-face bit belongs to a call of EncodeConnectivityFromCorner that
+                                         EMITS a symbol (its start face is not visited: CLOSED + the fan lemma), the ledger
+                                         records the position and the corner of the call's first configuration and, for an
+                                         interior bit, Opposite(init corner) = that corner; the step INTO a ledger position is a
+                                         run boundary, every other step is inside a run.  With the positions the stack
+                                         correspondence names the entries of the later runs ([TS2], [tops_starts]: the decoder's
+                                         final stack = the start corners of the runs in encoding order), and with [IFc'] from
+                                         C01_ebsim_encoder_history the start-face phase [start_ok_g] holds for EVERY encoding
+      C01_ebsim_roundtrip / C01_ebsim_roundtrip_ct
+                                         PROVED - THE GENERAL THEOREM: for every table with C13's invariants and every successful
+                                         EncodeConnectivity (any symbols, any split events, any number of start faces /
+                                         components, boundary and interior starts) the decoder state machine eb_core accepts, for
+                                         both values of remove_invalid_vertices, and rebuilds a table isomorphic ([eb_iso]) to
+                                         the encoder's non-degenerate faces; premises of the eb_core form: the symbol count is
+                                         < 2^31 (the range in which the model of the split ids is faithful) and the vertex bound
+                                         maxv >= cntv (the decoder's own guard).  `_ct`: against eb_decode_of (header guards +
+                                         state machine + compaction) for the tables of CornerTable::Create, under the size bound
+                                         and guard G3 ONLY (the premises of C09_ebenc_stream_never_rejected_by_guards_partial;
+                                         G3 is not a consequence of C13's invariants).
+    Nothing of the round trip on the MODEL is left open.  (The correspondence of the model with the C++ functions is the
+    matter of the differential harnesses h_c01 / h_c09, not of this file.) *)
 From Coq Require Import ZArith List Bool.
 From Draco Require Import Model.CornerTable Model.EbEncoder Model.EbTrace Proofs.CornerTable_proofs Proofs.EbEncoder_proofs.
 From Draco Require Import Proofs.EbTrace_proofs Proofs.EbSimEnc_proofs Proofs.EbSimDec_proofs Proofs.EbSimS_proofs Proofs.EbSimLoop_proofs Proofs.EbSim_proofs.
 From Draco Require Import Proofs.EbSimEv_proofs Proofs.EbSimEvChk_proofs Proofs.EbSimCount_proofs.
 From Draco Require Import Proofs.EbTraceStep_proofs Proofs.EbTraceInv_proofs Proofs.EbSimEvEnc_proofs.
-From Draco Require Import Proofs.EbTraceStepM_proofs Proofs.EbTraceInvM_proofs Proofs.EbSimEvEncM_proofs.
+From Draco Require Import Proofs.EbTraceStepM_proofs Proofs.EbTraceInvM_proofs Proofs.EbTraceLedger_proofs Proofs.EbSimEvEncM_proofs.
 From Draco Require Model.Edgebreaker Proofs.Edgebreaker_proofs Proofs.Edgebreaker_fan_proofs Proofs.Edgebreaker_compact_proofs
   Proofs.EbSimCompact_proofs.
 Import ListNotations.
@@ -936,6 +947,39 @@ Theorem C01_ebsim_events_count : forall c2v opp nf nv niso ndeg o tr,
 Proof. exact events_countM. Qed.
 Print Assumptions C01_ebsim_events_count.
 
+(** ** the ledger of the runs, the start-face phase, THE GENERAL THEOREM *)
+Theorem C01_ebsim_trace_ledger : forall c2v opp nf nv niso ndeg o tr,
+  length c2v = 3 * nf -> opp_ok c2v opp -> (forall c, c < 3 * nf -> vtx c2v c < nv) -> one_fan c2v opp ->
+  eb_encode_tr c2v opp nv niso ndeg = EOk (o, tr) -> length tr <= NF c2v ->
+  exists sF bits inits, o_bits o = rev bits /\ o_pcc o = pcc sF ++ rev inits /\ o_syms o = rev (syms sF) /\ o_events o = rev (evs sF) /\
+    JGOOD c2v opp (rev tr) sF bits inits.
+Proof. exact trace_ledger. Qed.
+Print Assumptions C01_ebsim_trace_ledger.
+
+Theorem C01_ebsim_start_ok : forall c2v opp nf nv niso ndeg o tr,
+  length c2v = 3 * nf -> opp_ok c2v opp -> (forall c, c < 3 * nf -> vtx c2v c < nv) -> one_fan c2v opp ->
+  eb_encode_tr c2v opp nv niso ndeg = EOk (o, tr) ->
+  start_ok_g c2v opp nf (o_pcc o) (rev (o_syms o)) (topsE (rev (o_syms o)) (EVseg_of o) (length (o_syms o))) (o_bits o).
+Proof. exact start_allM. Qed.
+Print Assumptions C01_ebsim_start_ok.
+
+Theorem C01_ebsim_roundtrip : forall c2v opp nf nv niso ndeg o rm maxv,
+  length c2v = 3 * nf -> opp_ok c2v opp -> (forall c, c < 3 * nf -> vtx c2v c < nv) -> one_fan c2v opp ->
+  eb_encode c2v opp nv niso ndeg = EOk o ->
+  (Z.of_nat (length (o_syms o)) < 2147483648)%Z -> (cntv (rev (o_syms o)) <= maxv)%Z ->
+  let F := Z.of_nat (length (o_pcc o)) in
+  exists n s, Edgebreaker.eb_core (3 * F) maxv F rm (rev (o_syms o)) (o_events o) (Edgebreaker.bits_of_list (o_bits o)) = Edgebreaker.Ok (n, s) /\
+              eb_iso c2v opp (o_pcc o) (Edgebreaker.c2v s) (Edgebreaker.copp s).
+Proof. exact ebsim_roundtrip. Qed.
+Print Assumptions C01_ebsim_roundtrip.
+
+Theorem C01_ebsim_roundtrip_ct : forall faces t o rm, ct_create faces = Some t -> eb_encode_ct t = EOk o ->
+  (Z.of_nat (3 * length faces + length (ct_vcorn t)) < 2147483648)%Z ->
+  ((3 * o_nfaces o) / 2 <= (o_nverts o * (o_nverts o - 1)) / 2)%Z ->
+  exists n s, eb_decode_of o rm = Edgebreaker.Ok (n, s) /\ eb_iso (ct_c2v t) (ct_opp t) (o_pcc o) (Edgebreaker.c2v s) (Edgebreaker.copp s).
+Proof. exact ebsim_roundtrip_ct. Qed.
+Print Assumptions C01_ebsim_roundtrip_ct.
+
 Theorem C01_ebsim_ndp_check_sound : forall opp tr, ndp_b opp tr = true -> ndp opp tr.
 Proof. exact ndp_b_sound. Qed.
 Print Assumptions C01_ebsim_ndp_check_sound.
@@ -1120,3 +1164,27 @@ Example ebsim_events1_two_holes_and_torus_with_hole :
   events1_info (firstn 13 (grid 5 5 false) ++ skipn 15 (firstn 30 (grid 5 5 false)) ++ skipn 33 (grid 5 5 false)) = Some (2, true, true) /\
   events1_info (skipn 2 (grid 4 4 true)) = Some (2, true, true).
 Proof. vm_compute. split; reflexivity. Qed.
+
+(** instances of THE GENERAL THEOREM [C01_ebsim_roundtrip_ct] with events AND several start faces: two tori in one mesh (4 events,
+    2 bits), a torus plus a disc (2 events, 2 bits), a torus plus a disc with a hole (3 events): the two premises (size, G3)
+    hold, and - executed - DecodeConnectivity accepts the encoder's stream with a table isomorphic to the encoder's, with and
+    without the vertex compaction *)
+Definition general_info faces :=
+  match ct_create faces with
+  | Some t => match eb_encode_ct t with
+              | EOk o => Some (length (o_events o), length (o_bits o),
+                               (Z.of_nat (3 * length faces + length (ct_vcorn t)) <? 2147483648)%Z &&
+                               ((3 * o_nfaces o) / 2 <=? (o_nverts o * (o_nverts o - 1)) / 2)%Z,
+                               eb_roundtrip_b (ct_c2v t) (ct_opp t) o true && eb_roundtrip_b (ct_c2v t) (ct_opp t) o false)
+              | _ => None
+              end
+  | None => None
+  end.
+Example ebsim_general_two_tori : general_info (grid 3 3 true ++ shift_faces 100 (grid 4 5 true)) = Some (4, 2, true, true).
+Proof. vm_compute. reflexivity. Qed.
+Example ebsim_general_torus_and_disc : general_info (grid 3 3 true ++ shift_faces 100 (grid 3 3 false)) = Some (2, 2, true, true).
+Proof. vm_compute. reflexivity. Qed.
+Example ebsim_general_torus_and_disc_with_hole :
+  general_info (grid 3 3 true ++ shift_faces 100 (firstn 8 (grid 3 3 false) ++ skipn 10 (grid 3 3 false))) = Some (3, 2, true, true).
+Proof. vm_compute. reflexivity. Qed.
+
